@@ -6,6 +6,9 @@ import PycfModel.Model.Catalogue
 import PycfModel.Model.Resolver
 import PycfModel.Model.Template
 import PycfModel.Model.IamCond
+import PycfModel.Model.Net
+import PycfModel.Model.Policy
+import PycfModel.Generated.Net
 /-
 Line protocol driver: one JSON operation per input line, one JSON result per output line.
 Executes the implementation models (I); proves nothing.
@@ -197,6 +200,41 @@ def runOp (j : Json) : Except String Json := do
       pure (Json.mkObj [("result", match IamCond.call nb ctx with
         | some b => .bool b
         | none => .null)])
+  | "cidr" =>
+    let t ← getStr j "text"
+    let v6 ← getBool j "v6"
+    match (if v6 then Net.parse6 t.toList else Net.parse4 t.toList) with
+    | none => pure (Json.mkObj [("invalid", .bool true)])
+    | some (a, l) =>
+      pure (Json.mkObj [("net", .arr #[.str (toString a), .num ⟨l, 0⟩]),
+        ("slash_zero", .bool (Net.slashZero (some (a, l)))),
+        ("is_public", if v6 then .null else .bool (Net.isPublic Generated.privateTable4 Generated.sharedRange4 (some (a, l)) false))])
+  | "rds_absent" =>
+    let g ← getBool j "group"
+    pure (Json.mkObj [("is_public", .bool (Net.isPublic Generated.privateTable4 Generated.sharedRange4 none g)),
+      ("slash_zero", .bool (Net.slashZero none))])
+  | "effect" =>
+    let e ← getStr j "effect"
+    pure (Json.mkObj [("normalised", match Policy.normEffect e with | some n => .str n | none => .null)])
+  | "policy" =>
+    let wl ← match j.getObjVal? "whitelist" with
+      | .ok (.arr xs) => pure (xs.toList.filterMap fun x => match x with | .str s => some s | _ => none)
+      | _ => .error "whitelist missing"
+    let stmts ← match j.getObjVal? "stmts" with
+      | .ok (.arr ss) => ss.toList.mapM fun st => do
+          let e ← getStr st "effect"
+          let p ← getJ st "principal"
+          let np ← getJ st "notprincipal"
+          pure (⟨e, p, np⟩ : Policy.Stmt)
+      | _ => .error "stmts missing"
+    let fields := Generated.principalFields
+    let sortedSet (xs : List String) : Json :=
+      strList ((Text.sortDedup (xs.map String.toList)).map String.ofList)
+    pure (Json.mkObj [
+      ("principals", .arr (stmts.map fun s => strList (Policy.principalList fields s.principal s.notPrincipal)).toArray),
+      ("nonwl", .arr (stmts.map fun s => strList (Policy.nonWhitelisted wl (Policy.principalList fields s.principal s.notPrincipal))).toArray),
+      ("allowed", sortedSet (Policy.allowedPrincipals fields stmts)),
+      ("nonwl_allowed", sortedSet (Policy.nonWhitelistedAllowed fields wl stmts))])
   | "tokens" =>
     let t ← getStr j "text"
     let toks := Resolver.tokens t.toList
